@@ -212,7 +212,16 @@ def _eval(
                 "Already in dds.eval() context. Nested eval contexts are not supported",
                 DDSErrorCode.EVAL_IN_EVAL,
             )
-        key = None if path is None else _eval_ctx.requested_paths[path]
+        if path not in _eval_ctx.requested_paths:
+            # The analysis has not seen this call: it is made by code that is not analysed.
+            raise DDSException(
+                f"The path {path} is kept by {fun} (module '{getattr(fun, '__module__', None)}') during an "
+                f"evaluation, but the analysis of the evaluation has not found this call. The typical cause "
+                f"is that the module '{getattr(fun, '__module__', None)}' has not been accepted for use by DDS. "
+                f"Suggestion: use the function 'dds.accept_module' to accept it or one of its parent packages.",
+                DDSErrorCode.MODULE_NOT_FOUND,
+            )
+        key = _eval_ctx.requested_paths[path]
         # The key of a call with arguments computed at run time comes from the place of the call in the code.
         # A call that is executed again in the same evaluation with other arguments (a keep in a loop) has the
         # same key and the same path: it cannot be told apart from the first one.
